@@ -237,12 +237,20 @@ theorem simD_tick_leader {val : Val} {voters : List Id} {n : Nat} {s : Spec.Stat
     (hs : r.state = .leader) (h : Raft.tick.run r = .ok ((), r')) : RaftSimD val voters n s r' := by
   have _ := hreach
   rw [tick_leader_run r hs] at h
-  obtain ⟨ra, ⟨he, ee, rfl⟩, hcase⟩ := tickHeartbeat_leader_inv r r' hs hinv.st.cq hinv.st.xfer h
+  obtain ⟨ra, ⟨he, ee, rfl⟩, hcase⟩ := tickHeartbeat_leader_inv r r' hs hinv.st.xfer h
   have hra : RaftInv val voters n { r with heartbeatElapsed := he, electionElapsed := ee } (s.nodes n) s.msgs :=
     hinv.congr rfl rfl rfl rfl rfl rfl rfl rfl rfl rfl rfl rfl
-  rcases hcase with rfl | ⟨res, hb⟩
-  · exact RaftSimD.refl hra
-  · obtain ⟨u, hu⟩ := stepLeader_beat_bcast _ _ _ _ _ rfl hb
-    exact (simD_bcastHeartbeat hra hs).elim hu
+  rcases hcase with ⟨rb, hrb, hcase⟩ | ⟨r1, hbf, rfl⟩
+  · have hrb' : RaftInv val voters n rb (s.nodes n) s.msgs ∧ rb.state = .leader := by
+      rcases hrb with rfl | rfl
+      · exact ⟨hra, hs⟩
+      · exact ⟨hra.clearRA, hs⟩
+    rcases hcase with rfl | ⟨res, hb⟩
+    · exact RaftSimD.refl hrb'.1
+    · obtain ⟨u, hu⟩ := stepLeader_beat_bcast _ _ _ _ _ rfl hb
+      exact (simD_bcastHeartbeat hrb'.1 hrb'.2).elim hu
+  · obtain ⟨s1, hrun, hmsgs, hdur, hinv1, _⟩ := sim_stepDown hra hbf
+    exact RaftSimD.trans hrun (by simp [Spec.Action.actor]) hdur
+      (fun t lt li hx => by rw [hmsgs] at hx; exact hx) (RaftSimD.refl hinv1.clearRA)
 
 end RaftVerif.Sim
